@@ -125,6 +125,11 @@ def vmap_1d(
             f"Same argument provided more than once in variables: {duplicates}",
         )
 
+    # The vmapped function is called with positional arguments only; make this
+    # possible for functions with keyword-only parameters
+    if callable_with == "only_kwargs":
+        func = allow_args(func)
+
     signature = inspect.signature(func)
     parameters = list(signature.parameters)
 
